@@ -201,7 +201,10 @@ func (ms *Modules) resolveIdentities() []error {
 			}
 		}
 		sort.SliceStable(newValues, func(j, k int) bool {
-			return newValues[j].Name < newValues[k].Name
+			if newValues[j].Name != newValues[k].Name {
+				return newValues[j].Name < newValues[k].Name
+			}
+			return newValues[j].modulePrefixedName() < newValues[k].modulePrefixedName()
 		})
 		i.Identity.Values = newValues
 	}
